@@ -223,18 +223,15 @@ func propC10(c *Ctx) {
 		c.respell(li, strings.ReplaceAll(c.specSentence(int64(langVals[li]), e), "　", " "), true)
 	})
 	r.Rule = "chk ops on pairs with equal NFKD form: valid sentences containing list words (quick: a seeded slice of the 10x2048 words; thorough: all of them) at every word count, re-spelled NFC, NFD, NFKC, NFKD and full-width (x/text transforms), with U+0020 and with U+3000 between words; invalid sentences and arbitrary Unicode strings paired with their other normal forms; expected: identical verdict and error for every spelling, nil for valid sentences; each compared with the specification's verdict over Lean NFKD (pinned Unicode 15 tables). Non-trivial = distinct ops not rejected by the count gate."
-	step := 97
-	if !c.quick {
-		step = 1
-	}
 	for li := range langVals {
 		l := int64(langVals[li])
-		for v := (li*13 + int(r.Seed)) % step; v < 2048; v += step {
-			n := entSizes[(v/step+li)%5]
+		// sentences whose first 23 words are consecutive list indices: 90 of them cover a whole list
+		// (thorough: all; quick: a seeded slice), plus shorter sentences at every word count
+		c.coverSentences(li, func(s string) { c.respell(li, s, true) })
+		for k, n := range entSizes {
 			e := c.randBytes(n)
-			setGroup(e, (v/step)%(n*3/4-1), v)
-			s := strings.ReplaceAll(c.specSentence(l, e), "　", " ")
-			c.respell(li, s, true)
+			setGroup(e, k%(n*3/4-1), c.rng.Intn(2048))
+			c.respell(li, strings.ReplaceAll(c.specSentence(l, e), "　", " "), true)
 		}
 		// invalid sentences keep the same verdict too
 		s := strings.ReplaceAll(c.specSentence(l, c.randBytes(16)), "　", " ")
@@ -305,10 +302,6 @@ func propC10(c *Ctx) {
 func propC11(c *Ctx) {
 	r := c.rep
 	r.Rule = "MnemonicToSeed on groups of (mnemonic, passphrase) spellings with equal NFKD forms: sentences of list words (quick: a seeded slice; thorough: every list word) in NFC/NFD/NFKC/NFKD/full-width with U+0020 and U+3000, crossed with passphrase spellings from compatibility/combining-heavy text; expected: one seed per group; one member of each group compared with Spec.seed. Pairs outside the stream-safe class are the known finding D4. Non-trivial = distinct (mnemonic, passphrase) spellings."
-	step := 211
-	if !c.quick {
-		step = 3
-	}
 	group := func(class, m, p string) {
 		base := c.seed(class, m, p)
 		for fn, fm := range forms(m) {
@@ -339,14 +332,7 @@ func propC11(c *Ctx) {
 		group("focus-word", strings.ReplaceAll(c.specSentence(int64(langVals[li]), e), "　", " "), "pw")
 	})
 	for li := range langVals {
-		l := int64(langVals[li])
-		for v := (li*17 + int(r.Seed)) % step; v < 2048; v += step {
-			n := entSizes[(v/step+li)%5]
-			e := c.randBytes(n)
-			setGroup(e, (v/step)%(n*3/4-1), v)
-			s := strings.ReplaceAll(c.specSentence(l, e), "　", " ")
-			group("list-words", s, c.randUnicode(3))
-		}
+		c.coverSentences(li, func(s string) { group("list-words", s, c.randUnicode(3)) })
 	}
 	nr := 10 * c.scale
 	if !c.quick {
@@ -532,5 +518,22 @@ func (c *Ctx) normaliserAssumptions() {
 			check("boundary-run", "a"+strings.Repeat(string(mk), ln))
 			check("boundary-run", "가"+strings.Repeat(string(mk), ln)+"̖")
 		}
+	}
+}
+
+// coverSentences yields valid 24-word sentences of language li whose first 23 words are consecutive
+// list indices, so that 90 sentences cover every word of the list (thorough); quick takes a seeded
+// slice of them.
+func (c *Ctx) coverSentences(li int, each func(s string)) {
+	l := int64(langVals[li])
+	for blk := 0; blk*23 < 2048; blk++ {
+		if c.quick && (blk+li*7)%30 != int(c.rep.Seed%30) {
+			continue
+		}
+		e := c.randBytes(32)
+		for p := 0; p < 23; p++ {
+			setGroup(e, p, (blk*23+p)%2048)
+		}
+		each(strings.ReplaceAll(c.specSentence(l, e), "　", " "))
 	}
 }
